@@ -505,6 +505,32 @@ class Interp:
             return IntV(z3.URem(x.t, y.t), 0, y.lo - 1)
         raise Untranslatable(f'int op {type(op).__name__}')
 
+    def _float_to_int(self, v):
+        """int(v) for a float value: truncation towards zero; NaN/inf raise as in CPython."""
+        if isinstance(v, FloatV) and v.bounded and abs(v.lo) < 2.0 ** 62 and abs(v.hi) < 2.0 ** 62:
+            # statically enclosed: finite, no NaN; the result interval follows from the enclosure
+            return IntV(z3.fpToSBV(z3.RTZ(), v.t, z3.BitVecSort(W)), 0 if v.lo >= 0 else math.floor(v.lo) - 1,
+                        0 if v.hi <= 0 else math.ceil(v.hi) + 1)
+        if isinstance(v, FloatV):
+            if self.branch(BoolV(z3.fpIsNaN(v.t))):
+                raise _Raise('ValueError')
+            if self.branch(BoolV(z3.fpIsInf(v.t))):
+                raise _Raise('OverflowError')
+            lim = z3.FPVal(2.0 ** 62, F64)
+            if self.branch(BoolV(z3.Or(z3.fpGEQ(v.t, lim), z3.fpLEQ(v.t, z3.fpNeg(lim))))):
+                raise Untranslatable('int(float) beyond 2^62')
+            # tighten the interval of the result with solver probes (needed before the value is shifted)
+            for bits in (10, 16, 31, 62):
+                b = z3.FPVal(float(1 << bits), F64)
+                if bits == 62 or not self.feasible(z3.Or(z3.fpGEQ(v.t, b), z3.fpLEQ(v.t, z3.fpNeg(b)))):
+                    if bits != 62:
+                        self.pc = self.pc + [z3.fpLT(v.t, b), z3.fpGT(v.t, z3.fpNeg(b))]
+                    lo = -(1 << bits)
+                    if not self.feasible(z3.fpLT(v.t, z3.FPVal(0.0, F64))):
+                        self.pc = self.pc + [z3.Not(z3.fpLT(v.t, z3.FPVal(0.0, F64)))]
+                        lo = 0
+                    return IntV(z3.fpToSBV(z3.RTZ(), v.t, z3.BitVecSort(W)), lo, 1 << bits)
+
     # ------------------------------------------------------------------ calls
     def _callee(self, f):
         if isinstance(f, ast.Name):
@@ -520,29 +546,17 @@ class Interp:
             v = args[0]
             if isinstance(v, (IntV, BoolV)):
                 return to_int(v)
-            if isinstance(v, FloatV) and v.bounded and abs(v.lo) < 2.0 ** 62 and abs(v.hi) < 2.0 ** 62:
-                # statically enclosed: finite, no NaN; the result interval follows from the enclosure
-                return IntV(z3.fpToSBV(z3.RTZ(), v.t, z3.BitVecSort(W)), 0 if v.lo >= 0 else math.floor(v.lo) - 1,
-                            0 if v.hi <= 0 else math.ceil(v.hi) + 1)
             if isinstance(v, FloatV):
-                if self.branch(BoolV(z3.fpIsNaN(v.t))):
-                    raise _Raise('ValueError')
-                if self.branch(BoolV(z3.fpIsInf(v.t))):
-                    raise _Raise('OverflowError')
-                lim = z3.FPVal(2.0 ** 62, F64)
-                if self.branch(BoolV(z3.Or(z3.fpGEQ(v.t, lim), z3.fpLEQ(v.t, z3.fpNeg(lim))))):
-                    raise Untranslatable('int(float) beyond 2^62')
-                # tighten the interval of the result with solver probes (needed before the value is shifted)
-                for bits in (10, 16, 31, 62):
-                    b = z3.FPVal(float(1 << bits), F64)
-                    if bits == 62 or not self.feasible(z3.Or(z3.fpGEQ(v.t, b), z3.fpLEQ(v.t, z3.fpNeg(b)))):
-                        if bits != 62:
-                            self.pc = self.pc + [z3.fpLT(v.t, b), z3.fpGT(v.t, z3.fpNeg(b))]
-                        lo = -(1 << bits)
-                        if not self.feasible(z3.fpLT(v.t, z3.FPVal(0.0, F64))):
-                            self.pc = self.pc + [z3.Not(z3.fpLT(v.t, z3.FPVal(0.0, F64)))]
-                            lo = 0
-                        return IntV(z3.fpToSBV(z3.RTZ(), v.t, z3.BitVecSort(W)), lo, 1 << bits)
+                return self._float_to_int(v)
+        if name == 'round' and len(args) == 1:
+            v = args[0]
+            if isinstance(v, (IntV, BoolV)):
+                return to_int(v)
+            if isinstance(v, FloatV):
+                # Python's round(float) is round-half-to-even to an int
+                r = FloatV(z3.fpRoundToIntegral(RNE, v.t), *((v.lo - 1, v.hi + 1) if v.bounded else (None, None)))
+                self._call_value = r
+                return self._float_to_int(r)
         if name == 'float':
             return to_float(args[0])
         if name == 'abs':
